@@ -684,6 +684,24 @@ func lenOfInputs(v ssa.Value, merge *ssa.Function) bool {
 		if cv, ok2 := resolveVal(v).(*ssa.Convert); ok2 {
 			return lenOfInputs(cv.X, merge)
 		}
+		// an int field of a struct built in Merge that was given len(in) (closer.nIn)
+		if ld, ok2 := resolveVal(v).(*ssa.UnOp); ok2 && ld.Op == token.MUL {
+			if fa, ok3 := ld.X.(*ssa.FieldAddr); ok3 && isIntType(ld.Type()) {
+				fld := fieldName(fa.X.Type(), fa.Field)
+				n, all := 0, true
+				instrs(merge, func(_ *ssa.BasicBlock, _ int, in ssa.Instruction) {
+					if st, ok := in.(*ssa.Store); ok {
+						if fa2, ok := st.Addr.(*ssa.FieldAddr); ok && fieldName(fa2.X.Type(), fa2.Field) == fld && types.Identical(origType(derefType(fa2.X.Type())), origType(derefType(fa.X.Type()))) {
+							n++
+							if _, isLd := resolveVal(st.Val).(*ssa.UnOp); isLd || !lenOfInputs(st.Val, merge) {
+								all = false
+							}
+						}
+					}
+				})
+				return n > 0 && all
+			}
+		}
 		return false
 	}
 	bi, ok := call.Call.Value.(*ssa.Builtin)
@@ -872,4 +890,11 @@ func paramOnlyAtomic(cc *ssa.CallCommon, arg ssa.Value) bool {
 		}
 	}
 	return any
+}
+
+func derefType(t types.Type) types.Type {
+	if p, ok := t.Underlying().(*types.Pointer); ok {
+		return p.Elem()
+	}
+	return t
 }
